@@ -29,7 +29,7 @@ def fn_body(src, header_re, where):
     return src[bopen + 1:matching(src, bopen, '{', '}') - 1]
 
 
-@generator('LockScope.v', 'rodbus/src/server/task.rs', 'ffi/rodbus-ffi/src/server.rs')
+@generator('LockScope.v', 'rodbus/src/server/task.rs', 'rodbus/src/server/request.rs', 'ffi/rodbus-ffi/src/server.rs')
 def gen_lock_scope(repo):
     task = rp.read(f'{repo}/rodbus/src/server/task.rs')
     body = fn_body(task, r'async\s+fn\s+handle_frame\s*\(', 'task.rs handle_frame')
@@ -43,6 +43,34 @@ def gen_lock_scope(repo):
     # the other lock in handle_frame is the broadcast arm: request.execute(handler.lock().unwrap().as_mut())
     bcast = len(re.findall(r'request\s*\.\s*execute\s*\(\s*handler\s*\.\s*lock\s*\(\s*\)\s*\.\s*unwrap\s*\(\s*\)\s*\.\s*as_mut\s*\(\s*\)\s*\)', body))
     reply_one_section = guard_is_argument and n_locks == 1 + bcast
+
+    # ---- what exactly happens inside / outside the critical section of a unicast request
+    # the statement that holds the guard: `let reply: &[u8] = request.get_reply(..)?;`
+    st_start = body.rfind(';', 0, c.start()) + 1
+    st_end = body.find(';', matching(body, c.end() - 1, '(', ')'))
+    stmt = body[st_start:st_end]
+    flat_stmt = ''.join(stmt.split())
+    # the FrameWriter is handed to that very call: every reply byte (header, function code, data or
+    # exception code, CRC on serial) is formatted into it before the guard temporary is dropped
+    writer_is_argument = '&mutself.writer' in args
+    # nothing in that statement can yield or touch the socket
+    stmt_is_sync = '.await' not in flat_stmt and 'io.' not in flat_stmt and 'write_reply' not in flat_stmt
+    # the socket write is a later, separate statement using the formatted bytes
+    after = ''.join(body[st_end + 1:].split())
+    socket_write_later = bool(re.match(r'(write_reply\(io,reply,[^;]*\)|io\.write\(reply,[^;]*\))\.await\?;', after))
+    # Request::get_reply is a plain (non-async) fn and contains no await
+    req_src = rp.read(f'{repo}/rodbus/src/server/request.rs')
+    mget = re.search(r'(async\s+)?fn\s+get_reply\s*(<[^>]*>)?\s*\(', req_src)
+    if not mget:
+        raise ParseError('request.rs: fn get_reply not found')
+    get_reply_body = fn_body(req_src, r'fn\s+get_reply\s*(<[^>]*>)?\s*\(', 'request.rs get_reply')
+    get_reply_sync = mget.group(1) is None and '.await' not in get_reply_body
+    # the authorization query precedes the lock
+    auth_pos = body.find('.is_authorized(')
+    authorization_before_lock = 0 <= auth_pos < c.start()
+    # broadcast: `for handler in self.handlers.iter_mut() { request.execute(handler.lock().unwrap().as_mut()); }`
+    bflat = ''.join(body.split())
+    broadcast_per_unit = bool(re.search(r'forhandlerinself\.handlers\.iter_mut\(\)\{request\.execute\(handler\.lock\(\)\.unwrap\(\)\.as_mut\(\)\);\}', bflat))
 
     ffi = rp.read(f'{repo}/ffi/rodbus-ffi/src/server.rs')
     ub = fn_body(ffi, r'pub\(crate\)\s+unsafe\s+fn\s+server_update_database\s*\(', 'ffi server.rs server_update_database')
@@ -61,4 +89,15 @@ def gen_lock_scope(repo):
     out += f'Definition transaction_in_one_critical_section : bool := {"true" if txn_one_section else "false"}.\n'
     out += '(* impl RequestHandler for RequestHandlerWrapper takes no lock itself *)\n'
     out += f'Definition wrapper_takes_no_lock : bool := {"true" if wrapper_lock_free else "false"}.\n'
+    out += '(* the FrameWriter is an argument of the locked get_reply call: ALL reply bytes (MBAP / RTU header, function code, byte\n'
+    out += '   count and data or exception code, CRC on serial) are formatted inside the critical section *)\n'
+    out += f'Definition reply_bytes_formatted_under_lock : bool := {"true" if writer_is_argument else "false"}.\n'
+    out += '(* the statement holding the guard contains no .await and no socket access; Request::get_reply is not async *)\n'
+    out += f'Definition locked_statement_is_synchronous : bool := {"true" if (stmt_is_sync and get_reply_sync) else "false"}.\n'
+    out += '(* the socket write (write_reply(io, reply, ..).await / io.write(reply, ..).await) is the NEXT statement: the guard is gone *)\n'
+    out += f'Definition socket_write_after_unlock : bool := {"true" if socket_write_later else "false"}.\n'
+    out += '(* the authorization handler is consulted before the unit lock is taken *)\n'
+    out += f'Definition authorization_before_lock : bool := {"true" if authorization_before_lock else "false"}.\n'
+    out += '(* broadcast: the loop over the units takes each unit lock separately, inside the loop body *)\n'
+    out += f'Definition broadcast_locks_each_unit_separately : bool := {"true" if broadcast_per_unit else "false"}.\n'
     return out
